@@ -6,11 +6,11 @@ reg = json.load(open(os.path.join(root, 'checks.json')))
 props = [json.loads(l) for l in open(os.path.join(root, 'properties.jsonl'))]
 import glob
 reg['checks'] = []
-for f in sorted(glob.glob(os.path.join(root, 'harness', '*', 'checks.json'))):
-    b = os.path.basename(os.path.dirname(f))
-    for c in json.load(open(f)):
-        c['bin'] = b
-        reg['checks'].append(c)
+for f in sorted(glob.glob(os.path.join(root, 'harness', '*', 'checks.d', '*.json'))):
+    b = os.path.basename(os.path.dirname(os.path.dirname(f)))
+    c = json.load(open(f))
+    c['bin'] = b
+    reg['checks'].append(c)
 claimed = {c['id']: c for c in reg['checks']}
 checks = []
 for p in props:
